@@ -596,6 +596,40 @@ func (c *Ctx) registerStd(tab map[string]intrinsicFn) {
 		}
 		return nil
 	}
+	// sync.Pool: a stack per pool address. Get hands back the most recently Put object whenever there is one (the
+	// schedule on which a stale object would show), and calls New otherwise.
+	tab["(*sync.Pool).Put"] = func(c *Ctx, fn *ssa.Function, a []Value) Value {
+		sp := cell(c, a[0])
+		if iv, ok := a[1].(IfaceV); ok && iv.T == nil {
+			return nil
+		}
+		if c.pools == nil {
+			c.pools = map[*Value][]Value{}
+		}
+		c.pools[sp] = append(c.pools[sp], a[1])
+		return nil
+	}
+	tab["(*sync.Pool).Get"] = func(c *Ctx, fn *ssa.Function, a []Value) Value {
+		sp := cell(c, a[0])
+		if st := c.pools[sp]; len(st) > 0 {
+			x := st[len(st)-1]
+			c.pools[sp] = st[:len(st)-1]
+			return x
+		}
+		ps, ok := (*sp).(StructV)
+		if !ok {
+			panic(c.abort("sync.Pool held as %T", *sp))
+		}
+		pt := fn.Signature.Recv().Type().(*types.Pointer).Elem().Underlying().(*types.Struct)
+		for i := 0; i < pt.NumFields(); i++ {
+			if pt.Field(i).Name() == "New" {
+				if cl, ok := ps[i].(*Closure); ok && cl != nil {
+					return c.callClosure(cl, nil, nil)
+				}
+			}
+		}
+		return IfaceV{}
+	}
 	tab["(*sync.Once).Do"] = func(c *Ctx, fn *ssa.Function, a []Value) Value {
 		sp := cell(c, a[0])
 		if c.atomics == nil {
@@ -643,6 +677,39 @@ func (c *Ctx) registerStd(tab map[string]intrinsicFn) {
 		rv, _ := a[0].(RValV)
 		return c.St.BoolC(rv.V.T != nil)
 	}
+	// math.Float32bits / Float64bits: the bit pattern of a float. SMT-LIB has one NaN, Go has many: the pattern is a
+	// fresh bit-vector b with to_fp(b) = x (for a NaN: any NaN pattern, sign bit and payload free), one per term.
+	fbits := func(w int, so smt.Sort) func(c *Ctx, fn *ssa.Function, a []Value) Value {
+		return func(c *Ctx, fn *ssa.Function, a []Value) Value {
+			x := a[0].(*smt.Term)
+			if c.Ring {
+				panic(c.abort("%s in exact real arithmetic", fn.Name()))
+			}
+			if x.IsConst() {
+				return c.St.BVC(w, x.U)
+			}
+			if x.Op == smt.OBitsToFP {
+				return x.Args[0]
+			}
+			if c.bitsOf == nil {
+				c.bitsOf = map[int64]*smt.Term{}
+			}
+			if b, ok := c.bitsOf[x.ID]; ok {
+				return b
+			}
+			name := fmt.Sprintf("bits!%d", x.ID)
+			b := c.St.Sym(name, smt.BV(w))
+			c.bitsOf[x.ID] = b
+			if !c.namedSet[name] {
+				c.namedSet[name] = true
+				c.named = append(c.named, b)
+			}
+			c.assume(c.St.Eq(c.St.BitsToFP(b, so), x))
+			return b
+		}
+	}
+	tab["math.Float32bits"] = fbits(32, smt.FP32)
+	tab["math.Float64bits"] = fbits(64, smt.FP64)
 	tab["math.Float32frombits"] = func(c *Ctx, fn *ssa.Function, a []Value) Value {
 		if c.Ring {
 			if t := a[0].(*smt.Term); t.IsConst() {
@@ -730,6 +797,12 @@ func (c *Ctx) applyMath(name string, x *smt.Term) *smt.Term {
 		}
 		if f, ok := math32Fns[name]; ok && x.Sort.K == smt.KFP32 {
 			return st.F32C(f(x.F32Val()))
+		}
+	}
+	// a value from a finite set of constants: the routine is evaluated case by case (smt/fd.go)
+	if _, known := mathFns[strings.TrimPrefix(name, "m32.")]; known && x.Sort.IsFP() {
+		if r := st.FDMap(x, func(v *smt.Term) *smt.Term { return c.applyMath(name, v) }); r != nil {
+			return r
 		}
 	}
 	r := st.App(c.ufName(name, x.Sort), x.Sort, x)
